@@ -110,6 +110,9 @@ RSETS = {
     "ab": (("A", "B"),),
     "ab_cb": (("A", "B"), ("C", "B")),
     "chain": (("A", "B"), ("B", "C")),
+    # the same requests made in the other order (the outcome of retargeting is per old symbol, whatever was requested first)
+    "chain_r": (("B", "C"), ("A", "B")),
+    "cb_ab": (("C", "B"), ("A", "B")),
 }
 
 ABIS = {
@@ -1193,11 +1196,11 @@ def cases_of(task):
         elif abi == "x64-elf" and kinds[0] == "l":
             plans = [(0, tuple(RSETS), blockwise), (1, ("ab",), small)]
         elif abi == "x64-elf":
-            plans = [(0, ("ab",), None), (0, ("ab_cb", "chain"), blockwise), (1, ("ab",), small)]
+            plans = [(0, ("ab",), None), (0, ("ab_cb", "chain", "chain_r", "cb_ab"), blockwise), (1, ("ab",), small)]
         elif abi == "arm64-elf":
             plans = [(0, tuple(RSETS), small), (1, ("ab",), small)]
         else:
-            plans = [(0, ("ab",), None), (0, ("ab_cb", "chain"), blockwise)]
+            plans = [(0, ("ab",), None), (0, ("ab_cb", "chain", "chain_r", "cb_ab"), blockwise)]
         for style, rsets, pred in plans:
             for uses in subsets_for(kinds, allowed, pred):
                 for rset in rsets:
